@@ -1,1 +1,61 @@
-(* C07 -- theorems to be stated here. *)
+(* C07 -- output is independent of block batching and of the cipher's parallel width.
+   Generic theorem (any body whose parallel form agrees with its single-block loop), its instances
+   for every block mode and direction as dispatched by the extracted interpreter, for the two
+   hand-written parallel bodies, for keystream cores (CTR, BelT) and for the private helpers of cts.
+   No hypothesis on the cipher, the width, the number of blocks or the schedule. *)
+From BM Require Import BlockModes Spec BlockModes_proofs Plumbing Ctr Belt Stream Cts Stream_proofs Cts_proofs Interp Interp_proofs.
+
+Theorem C07_generic : forall (S : Type) (single : S -> cell -> S * cell) (w : nat) (par : S -> list cell -> S * list cell),
+  (forall st ch, length ch = w -> par st ch = fold_cells single st ch) ->
+  forall sched st cs, sched_total sched = length cs ->
+  run_sched single w par st sched cs = fold_cells single st cs.
+Proof. intros S single w par H sched st cs. apply run_sched_fold. exact H. Qed.
+Print Assumptions C07_generic.
+
+(* all twelve block-mode backends (cbc, pcbc, ige, cfb, cfb8, ofb x enc, dec): any schedule of
+   single-block and multi-block calls = one block at a time, same final state *)
+Theorem C07_block_modes : forall (C : cipher) (k : bkind) sched st cs, sched_total sched = length cs ->
+  run_sched (bm_single C k) (bm_w C k) (bm_par C k) st sched cs = fold_cells (bm_single C k) st cs.
+Proof. exact bm_sched_fold. Qed.
+Print Assumptions C07_block_modes.
+
+Theorem C07_cbc_dec_par : forall (C : cipher) iv cs, cbc_dec_par C iv cs = fold_cells (cbc_dec_block C) iv cs.
+Proof. exact cbc_dec_par_ok. Qed.
+Print Assumptions C07_cbc_dec_par.
+
+Theorem C07_cfb_dec_par : forall (C : cipher) s cs, cfb_dec_par C s cs = fold_cells (cfb_dec_block C) s cs.
+Proof. exact cfb_dec_par_ok. Qed.
+Print Assumptions C07_cfb_dec_par.
+
+(* keystream cores: n blocks through groups of w (gen_par_ks_blocks) and a tail (gen_tail_blocks)
+   = n single generations *)
+Theorem C07_core_generic : forall (St : Type) (K : score St),
+  (forall st, sc_gen_par K st = gen_n K (sc_w K) st) ->
+  forall n st, ks_blocks K n st = gen_n K n st.
+Proof. intros St K H n st. apply ks_blocks_gen_n. exact H. Qed.
+Print Assumptions C07_core_generic.
+
+Theorem C07_ctr_par : forall (F : flavor) (C : cipher) cn, ctr_gen_par F C cn = ctr_gen_n F C (c_w C) cn.
+Proof. exact ctr_gen_par_ok. Qed.
+Print Assumptions C07_ctr_par.
+
+Theorem C07_belt_par : forall (C : cipher) st, belt_gen_par C st = belt_gen_n C (c_w C) st.
+Proof. exact belt_gen_par_ok. Qed.
+Print Assumptions C07_belt_par.
+
+(* cts helpers: width-free *)
+Theorem C07_cts_cbc_dec : forall (C : cipher) iv cs,
+  cts_cbc_dec C iv cs = (cbc_chain iv (map rd_in cs), map2 wr_out cs (cbc_dec_spec (c_D C) iv (map rd_in cs))).
+Proof. exact cts_cbc_dec_eq. Qed.
+Print Assumptions C07_cts_cbc_dec.
+
+Theorem C07_cts_ecb : forall (C : cipher) st cs,
+  cts_ecb_enc C st cs = (tt, map2 wr_out cs (map (c_E C) (map rd_in cs))) /\
+  cts_ecb_dec C st cs = (tt, map2 wr_out cs (map (c_D C) (map rd_in cs))).
+Proof. intros C st cs. split; [apply cts_ecb_enc_eq | apply cts_ecb_dec_eq]. Qed.
+Print Assumptions C07_cts_ecb.
+
+(* non-vacuity: a schedule of three pieces over five cells meets the hypothesis *)
+Example C07_sched_example : sched_total [CMulti 2; CSingle; CMulti 2] = 5.
+Proof. reflexivity. Qed.
+Print Assumptions C07_sched_example.
